@@ -105,9 +105,45 @@ static mut EXP_FUSE: u8 = 255;
 static mut EXP_CALLS: usize = 0;
 static mut EXP_FIRED: bool = false;
 
+/// C18, panic of the expiration accessor on the key being inserted (KeyExpList::insert reads it outside the purge): whatever
+/// the buffer holds at that moment is what the caller keeps, so it must be sorted, made of old entries and at most the new
+/// key, and the cached earliest expiration must be a lower bound of all of it.
+static mut INS_WATCH: bool = false;
+static mut INS_KEY: (u8, u8) = (0, 0);
+static mut INS_SEEN: u8 = 0;
+unsafe fn inspect_during_insert() {
+    let l = &*LIST_PTR;
+    let len = l.verif_len();
+    let min_exp = l.verif_min_exp();
+    let mut j = 0;
+    while j < len {
+        let (k, v) = l.verif_entry(j);
+        assert!(min_exp <= k.x);
+        if j > 0 {
+            assert!(l.verif_entry(j - 1).0.k < k.k);
+        }
+        if !(k.k == INS_KEY.0 && k.x == INS_KEY.1) {
+            let mut found = false;
+            let mut q = 0;
+            while q < PRE.1 {
+                if PRE.0[q].0 == k.k && PRE.0[q].1 == k.x && PRE.0[q].2 == v {
+                    found = true;
+                }
+                q += 1;
+            }
+            assert!(found);
+        }
+        j += 1;
+    }
+    INS_SEEN += 1;
+}
+
 impl ExpiredKey<u8> for Key {
     fn expiration(&self) -> u8 {
         unsafe {
+            if INS_WATCH && !LIST_PTR.is_null() && self.k == INS_KEY.0 && self.x == INS_KEY.1 {
+                inspect_during_insert();
+            }
             if EXP_FUSE == 0 && !LIST_PTR.is_null() {
                 // C18, panic of the expiration accessor inside clear_expired's Vec::retain: std's retain guard restores the
                 // already kept prefix followed by every not yet processed entry (this one included).  The cached earliest
@@ -568,6 +604,34 @@ fn c18_keylist_callback_state() {
     }
     kani::cover!(unsafe { FUSE_FIRED });
     unsafe { FUSE = 255; }
+    std::mem::forget(l);
+}
+
+/// C18 (list): the expiration accessor panics on the key being inserted, at any of its invocations (before or after the buffer
+/// is changed): the list left behind is sorted, holds old entries plus at most the new one, and its cache is a valid lower bound.
+#[kani::proof]
+#[kani::unwind(6)]
+fn c18_keylist_insert_accessor_panic() {
+    let (e, n) = any_entries();
+    kani::assume(n <= 3);
+    let mut l = key_list(&e, n);
+    let t: u8 = kani::any();
+    let d: u8 = kani::any();
+    let k: u8 = kani::any();
+    let kx: u8 = kani::any();
+    kani::assume(kx >= t && ref_find(&e, n, None, k).is_none());
+    unsafe {
+        NOW = t;
+        WATCH = false;
+        PRE = (e, n);
+        LIST_PTR = &l as *const _;
+        INS_KEY = (k, kx);
+        INS_SEEN = 0;
+        INS_WATCH = true;
+    }
+    l.insert(Key { k, x: kx }, d, t);
+    unsafe { INS_WATCH = false; }
+    kani::cover!(unsafe { INS_SEEN > 0 });
     std::mem::forget(l);
 }
 
